@@ -190,6 +190,13 @@ def main(argv=None):
         os.remove(evpath)
     except OSError:
         pass
+    # replay files of earlier runs of this property describe violations of another tree
+    import glob
+    for old_replay in glob.glob(os.path.join(EVID, "replay", "%s-*.json" % prop)):
+        try:
+            os.remove(old_replay)
+        except OSError:
+            pass
 
     prog, info = ir.load_program("dev")
     mod = importlib.import_module("analyzer.rules.%s" % prop)
